@@ -600,7 +600,28 @@ def replay(ob):
         h, tab, N = ("handle_num_post", T_NUM, b['N_NUM']) if num else ("span_ascii", T_ASCII, b['N_SPAN'])
         r, pb = _playback(h, None, tier)
         info = dict(harness=MOD + h, status=r['status'], failed=r['failed'][:4])
-        if r['status'] != E.FAILED or not pb or len(pb) < 2 + N:
+        if r['status'] != E.FAILED:
+            return None, info
+        if not pb or len(pb) < 2 + N:
+            # Kani 0.68 sometimes prints playback tests for the covers only.  Fall back to the
+            # literals the harness ranges over: every literal of <= N chars over {7 _ .}, each
+            # run through the real CLI, first misbehaving one wins.
+            import itertools
+            info['note'] = "no concrete playback for the failed clause; enumerated the harness's literals (<= %d chars over 7 _ .) on the CLI" % N
+            tried = 0
+            for L in range(1, N + 1):
+                for tail in itertools.product("7_.", repeat=L - 1):
+                    lit = "7" + "".join(tail)
+                    if not NUM_RX.fullmatch(lit):
+                        continue
+                    tried += 1
+                    conf, inf2 = _replay_literal(lit)
+                    if conf:
+                        info.update(inf2)
+                        info['literals_tried'] = tried
+                        ob.cex = dict(literal=lit)
+                        return True, info
+            info['literals_tried'] = tried
             return None, info
         v = _u8s(pb)
         cs = "".join(tab[i] for i in v[1:1 + N])[:v[0]]
